@@ -98,6 +98,16 @@ func Step(cpu int, op int, m int, x int) {
 // keeps between steps outside the fields listed in cpuenv.Pre (a repeating block move is
 // re-executed once per byte, so MVN/MVP twice is "the second iteration").
 func Step2(cpu int, op1 int, op2 int, m int, x int) {
+	seq(cpu, []int{op1, op2}, m, x)
+}
+
+// Step3: three consecutive instructions, the first two setting the scene (same reading as Step2).
+func Step3(cpu int, op1 int, op2 int, op3 int, m int, x int) {
+	seq(cpu, []int{op1, op2, op3}, m, x)
+}
+
+func seq(cpu int, ops []int, m int, x int) {
+	op1 := ops[0]
 	pre := cpuenv.ArbitraryPre(uint8(m), uint8(x), 0)
 	pre.Interrupt = pre.Interrupt & 1
 	opAddr := uint32(pre.RK)<<16 | uint32(pre.PC)
@@ -130,32 +140,36 @@ func Step2(cpu int, op1 int, op2 int, m int, x int) {
 	}
 	tags(&a, uint8(op1))
 
-	// first instruction: agreement is the obligation of Step; here it only sets the scene
-	w65816.Step(&a, cpuenv.SpecMem)
-	vp.Assume(!a.BCDInvalid && !a.E && !a.Stopped)
 	var panicked bool
-	var mid w65816.Arch
-	if cpu == 0 {
-		c := cpuenv.Main
-		panicked = vp.Try(func() { c.Step() })
-		mid = cpuenv.AbstractMain(c)
-	} else {
-		c := cpuenv.Alt
-		panicked = vp.Try(func() { c.Step() })
-		mid = cpuenv.AbstractAlt(c)
+	for k := 1; k < len(ops); k++ {
+		op2 := ops[k]
+		// earlier instructions: agreement is the obligation of Step; here it only sets the scene
+		w65816.Step(&a, cpuenv.SpecMem)
+		vp.Assume(!a.BCDInvalid && !a.E && !a.Stopped)
+		var mid w65816.Arch
+		if cpu == 0 {
+			c := cpuenv.Main
+			panicked = vp.Try(func() { c.Step() })
+			mid = cpuenv.AbstractMain(c)
+		} else {
+			c := cpuenv.Alt
+			panicked = vp.Try(func() { c.Step() })
+			mid = cpuenv.AbstractAlt(c)
+		}
+		if panicked {
+			vp.Reach("earlier-step-failed")
+			return
+		}
+		// the inductive reading: "if the first instruction agreed with the model, so does the second"
+		// (a first instruction that disagrees is reported by Step, and would otherwise be reported twice)
+		vp.Assume(mid.C == a.C && mid.X == a.X && mid.Y == a.Y && mid.S == a.S && mid.D == a.D && mid.DBR == a.DBR && mid.K == a.K && mid.PC == a.PC && mid.P == a.P && mid.E == a.E)
+		vp.Assume(vp.BytesEqual(implMem, cpuenv.SpecMem))
+		implPC := uint32(mid.K)<<16 | uint32(mid.PC)
+		specPC := uint32(a.K)<<16 | uint32(a.PC)
+		implMem[implPC] = uint8(op2)
+		cpuenv.SpecMem[specPC] = uint8(op2)
+
 	}
-	if panicked {
-		vp.Reach("first-step-failed")
-		return
-	}
-	// the inductive reading: "if the first instruction agreed with the model, so does the second"
-	// (a first instruction that disagrees is reported by Step, and would otherwise be reported twice)
-	vp.Assume(mid.C == a.C && mid.X == a.X && mid.Y == a.Y && mid.S == a.S && mid.D == a.D && mid.DBR == a.DBR && mid.K == a.K && mid.PC == a.PC && mid.P == a.P && mid.E == a.E)
-	vp.Assume(vp.BytesEqual(implMem, cpuenv.SpecMem))
-	implPC := uint32(mid.K)<<16 | uint32(mid.PC)
-	specPC := uint32(a.K)<<16 | uint32(a.PC)
-	implMem[implPC] = uint8(op2)
-	cpuenv.SpecMem[specPC] = uint8(op2)
 
 	w65816.Step(&a, cpuenv.SpecMem)
 	vp.Assume(!a.BCDInvalid)
